@@ -17,6 +17,7 @@ import (
 	"os"
 	"path/filepath"
 	"strings"
+	"sync"
 	"time"
 
 	"github.com/attestantio/dirk/testing/daemon"
@@ -403,5 +404,56 @@ func tlsEngine(workdir, repo string) {
 			}
 		}
 		conn.Close()
+	}
+	// the same identities at the same time: three permitted clients with different permissions send identical read-only
+	// requests concurrently for a while; every distinct outcome each of them saw is printed as a row of its own (whatever is
+	// shared between requests in flight must not carry one caller's identity into another's answer)
+	type ckey struct{ cn, meth, wallet string }
+	seen := map[ckey]map[string]bool{}
+	var mu sync.Mutex
+	var wg sync.WaitGroup
+	stop := time.Now().Add(1500 * time.Millisecond)
+	pairs := [][2][]byte{{resources.ClientTest01Crt, resources.ClientTest01Key}, {resources.ClientTest02Crt, resources.ClientTest02Key}, {resources.ClientTest03Crt, resources.ClientTest03Key}}
+	for ci, pr := range pairs {
+		cert := mustPair(pr[0], pr[1])
+		cn := fmt.Sprintf("client-test%02d", ci+1)
+		conn, err := grpc.NewClient(fmt.Sprintf("127.0.0.1:%d", port), tlsOpt(&cert))
+		if err != nil {
+			continue
+		}
+		defer conn.Close()
+		for g := 0; g < 3; g++ {
+			wg.Add(1)
+			go func() {
+				defer wg.Done()
+				for time.Now().Before(stop) {
+					for _, m := range ms[:2] { // ListAccounts, Sign (generic: stateless)
+						for _, w := range []string{"Wallet 1", "Wallet 2"} {
+							ctx, cancel := context.WithTimeout(context.Background(), 10*time.Second)
+							resp := m.resp()
+							err := conn.Invoke(ctx, m.full, m.req(w), resp)
+							cancel()
+							res := "refused"
+							if err == nil {
+								res = "served:" + m.sum(resp)
+							}
+							mu.Lock()
+							k := ckey{cn, m.full, strings.ReplaceAll(w, " ", "_")}
+							if seen[k] == nil {
+								seen[k] = map[string]bool{}
+							}
+							seen[k][res] = true
+							mu.Unlock()
+						}
+					}
+				}
+			}()
+		}
+	}
+	wg.Wait()
+	for k, rs := range seen {
+		for r := range rs {
+			fmt.Fprintf(out, "valid:%s %s %s %s\n", k.cn, k.meth, k.wallet, r)
+		}
 	}
 }
